@@ -2,6 +2,7 @@
 
 import io
 import itertools
+import math
 import os
 import sys
 import wave
@@ -70,6 +71,8 @@ def consumed_after(k, n, B, H):
 def make_input(kind, data, sw, ch, files):
     L = lib()
     kw = dict(sr=SR, sw=sw, ch=ch)
+    if kind.startswith("rec:"):
+        kind = kind[4:]
     if kind == "bytes":
         return data, kw
     if kind == "buffer":
@@ -112,6 +115,8 @@ def build_reader(kind, data, sw, ch, files, block_dur, hop_dur, max_read, record
         chunks = [int(x) for x in kind.split(":")[1].split(",")] if ":" in kind else None
         sys.stdin = FakeStdin(data, chunks)
     try:
+        if kind.startswith("rec:"):
+            record = True  # the framing statement holds for a recording reader as well (no rewind in this history)
         if cls == "Recorder":
             return L["util"].Recorder(inp, block_dur=block_dur, hop_dur=hop_dur, max_read=max_read, **kw)
         return L["util"].AudioReader(inp, block_dur=block_dur, hop_dur=hop_dur, max_read=max_read, record=record, **kw)
@@ -269,6 +274,87 @@ def c10_rejections(rep):
         rep.violation("reader block_dur=%r hop_dur=%r accepted" % (bd, hd), "%s was not rejected" % why,
                       {"kind": "c10rej", "block_dur": bd, "hop_dur": hd})
     rep.add("evaluations", n)
+
+
+def c10_near_integer(rep):
+    """block_dur * rate just outside the 1e-9 ambiguity band on either side of an integer: block_size is the exact
+    floor (the band itself is left unjudged, rule R2); a product below 1 by more than the band is rejected."""
+    L = lib()
+    for rate in (100, 8000, 16000, 22050, 44100, 48000):
+        for k in (1, 2, 7, 432, 1024):
+            for delta in (-1e-3, -1e-6, -1e-7, -1e-8, 0.0, 1e-8, 1e-7, 1e-6, 1e-3):
+                bd = (k + delta) / rate
+                q = Fraction(bd) * rate
+                if q.denominator != 1 and abs(q - round(q)) < Fraction(1, 10 ** 9):
+                    rep.add("ambiguous_skipped")
+                    continue
+                want = math.floor(q)
+                rep.add("evaluations")
+                rep.add("near_integer_rows")
+                data = bytes(2 * (2 * k + 3))
+                try:
+                    r = L["util"].AudioReader(data, block_dur=bd, sr=rate, sw=2, ch=1)
+                    r.open()
+                    first = r.read()
+                    got = (r.block_size, len(first) // 2)
+                    r.close()
+                except Exception as exc:
+                    got = "raised %s" % type(exc).__name__
+                exp = (want, want) if want >= 1 else None
+                ok = (got == exp) if exp else isinstance(got, str)
+                if not ok:
+                    rep.violation("reader-near-integer rate=%d block_dur=%r" % (rate, bd),
+                                  "block_dur=%r at %d Hz (exact product %.12f): reader gives %r, floor is %d%s" % (
+                                      bd, rate, float(q), got, want, "" if want else " - shorter than one sample, must be rejected"),
+                                  {"kind": "c10near"})
+
+
+def c10_rewritten(rep):
+    """Readers built one after the other on a path whose file is rewritten in between (same size; new or preserved
+    modification time): each reader's blocks are those of the file as it is when the reader is built."""
+    L = lib()
+    d = common.scratch_dir()
+    for ext in ("wav", "raw"):
+        for lazy in (False, True):
+            for keep in (False, True):
+                path = os.path.join(d, "rewr_%d.%s" % (os.getpid(), ext))
+                stamp = None
+                for i, data in enumerate((content(7, 2, 1), bytes(reversed(content(7, 2, 1))), content(9, 2, 1)[4:])):
+                    if ext == "wav":
+                        with wave.open(path, "wb") as fp:
+                            fp.setframerate(SR)
+                            fp.setsampwidth(2)
+                            fp.setnchannels(1)
+                            fp.writeframes(data)
+                    else:
+                        with open(path, "wb") as fp:
+                            fp.write(data)
+                    if keep:
+                        if stamp is None:
+                            st = os.stat(path)
+                            stamp = (st.st_atime_ns, st.st_mtime_ns)
+                        os.utime(path, ns=stamp)
+                    rep.add("evaluations")
+                    kw = dict(large_file=lazy) if ext == "wav" else dict(large_file=lazy, audio_format="raw", sr=SR, sw=2, ch=1)
+                    try:
+                        r = L["util"].AudioReader(path, block_dur=2 / SR, **kw)
+                        r.open()
+                        got = []
+                        while len(got) < 9:
+                            b = r.read()
+                            if b is None:
+                                break
+                            got.append(b)
+                        r.close()
+                    except Exception as exc:
+                        got = "raised %r" % (exc,)
+                    want = blocks_of([data[j : j + 2] for j in range(0, len(data), 2)], 2, 2)
+                    if got != want:
+                        rep.violation("reader-rewritten %s lazy=%s keep_mtime=%s #%d" % (ext, lazy, keep, i + 1),
+                                      "reader #%d on a %s file rewritten in place (%s modification time, %s loading): blocks %r, the file holds %r" % (
+                                          i + 1, ext, "same" if keep else "new", "lazy" if lazy else "in-memory", got, want), {"kind": "c10rewritten"})
+                        break
+                os.unlink(path)
 
 
 # ---------------------------------------------------------------------------
@@ -440,16 +526,19 @@ def run(prop, tier):
     if prop == "C10":
         rep = common.Report(prop, tier, "bounded-exhaustive enumeration of (source length x format x block x hop x max_read x "
                             "source kind) with reads past the end, against the by-definition block model")
-        kinds = ["bytes", "buffer", "raw", "wav", "stdin", "wav_eager", "stdin:1", "stdin:3", "stdin:5,2", "buffer_pos2"]
+        kinds = ["bytes", "buffer", "raw", "wav", "stdin", "wav_eager", "stdin:1", "stdin:3", "stdin:5,2", "buffer_pos2",
+                 "rec:bytes", "rec:wav"]
         tasks = [(sw, ch, B, kinds, tier, 8) for (sw, ch) in FORMATS for B in (range(1, 6) if quick else range(1, 8))]
         # a high rate: max_read / block_dur / hop_dur are sub-millisecond values there
-        tasks += [(sw, ch, B, ["bytes", "wav", "stdin", "stdin:3"], tier, 16000) for (sw, ch) in FORMATS[:2] for B in ((2, 3) if quick else (1, 2, 3, 5))]
+        tasks += [(sw, ch, B, ["bytes", "wav", "stdin", "stdin:3", "rec:bytes"], tier, 16000) for (sw, ch) in FORMATS[:2] for B in ((2, 3) if quick else (1, 2, 3, 5))]
         rep.cov["rule"] = ("one evaluation = one reader built from one configuration and read to exhaustion plus 3 more "
                            "reads; non-trivial when at least one block is expected; distinct by construction; "
                            "states = configurations, transitions = read() calls compared")
         rep.cov["bounds"] = {"block_samples": "1..5" if quick else "1..7", "rates": [8, 16000], "source_len": "0..3*block+2", "formats": FORMATS,
                              "kinds": kinds}
         c10_rejections(rep)
+        c10_near_integer(rep)
+        c10_rewritten(rep)
         ltasks = [("L", (sw, ch, B, tier, 8192)) for (sw, ch) in ((2, 2), (1, 1)) for B in ((1024, 4096, 16385, 40000) if quick else (1024, 4096, 8192, 16385, 40000, 70001))]
         for part in common.pmap(_c10_dispatch, [("w", t) for t in tasks] + ltasks):
             rep.merge(part)
@@ -499,6 +588,10 @@ def replay(case):
         files = write_files(data, case["sw"], case["ch"], "replay")
         return c10_case(case["source"], case["n"], case["sw"], case["ch"], files, case["B"], case["block_dur"],
                         case["H"], case["hop_dur"], case["max_read"], premature=case.get("premature", False))
+    if k in ("c10near", "c10rewritten"):
+        rep = common.Report("C10", "quick", "")
+        (c10_near_integer if k == "c10near" else c10_rewritten)(rep)
+        return rep.violations[0][1] if rep.violations else None
     if k == "c10rej":
         try:
             lib()["util"].AudioReader(content(4, 2, 1), block_dur=case["block_dur"], hop_dur=case["hop_dur"], sr=SR, sw=2, ch=1)
